@@ -34,7 +34,7 @@ TRACES = ["*T*", "*", "*U*", "0", "*ICH*", "*EXP*", "*RNR*"]
 
 
 def budget(tier):
-    return 5000 if tier == "quick" else 600000
+    return 10000 if tier == "quick" else 600000
 
 
 # ---------------------------------------------------------------------------------- reference
